@@ -6601,6 +6601,9 @@ fn eval_expr(
                 // No more expressions to evaluate in this function, we're returning.
                 let stack_frame = env.current_frame_mut();
                 stack_frame.exprs_to_eval.clear();
+                // The toplevel frame outlives this evaluation, so
+                // leave the blocks we were inside.
+                stack_frame.bindings.block_bindings.truncate(1);
             } else {
                 env.push_expr_to_eval(
                     ExpressionState::EvaluatedSubexpressions,
